@@ -452,6 +452,21 @@ def family(tier):
     add('meta_pad_alias', [Packet('Root', [F('meta', 'A', typ='Symbol', pad=('left', "'0'")), F('meta', 'B', typ='Symbol'),
                                            F('basic', 'X', typ='u8')], root=True)], opts(), meta=meta,
         note='padding attribute on one of two fields sharing a MetaData entry')
+    add('meta_zpad_alias', [Packet('Root', [F('meta', 'B0', typ='ZName'), F('meta', 'A', typ='ZName', pad=('left', "'0'")), F('meta', 'B', typ='ZName'),
+                                            F('meta', 'Bs', typ='ZName', repeat=True)], root=True)], opts(), meta=meta,
+        note='padding attribute on one of several fields sharing a zchar MetaData entry (which carries its own padding)')
+    add('objs_named_both', [Packet('Root', [F('basic', 'Id', typ='u32'), F('obj', 'Detail', typ='Detail', explicit_name=False), F('obj', 'Hedge', typ='Detail'),
+                                            F('obj', 'Fill', typ='Fill', explicit_name=False, repeat=True), F('obj', 'Fixes', typ='Fill', repeat=True)], root=True),
+                            det, Packet('Fill', [F('basic', 'Px', typ='u64'), F('basic', 'Qty', typ='u32')])], opts(),
+        note='named and unnamed object fields of the same packet type side by side')
+    # aliases (entry typed by another entry), alias of alias, of every entry kind
+    meta2 = meta + [('ZAlias', ('ref', 'ZName'), 'za'), ('ZAlias2', ('ref', 'ZAlias'), 'za2'), ('SymAlias', ('ref', 'Symbol'), 'sa'),
+                    ('MemoAlias', ('ref', 'Memo'), 'ma'), ('Px3', ('ref', 'Px2'), 'px3')]
+    for nm, o in (('meta_alias', opts()), ('meta_alias_pad', opts(FixedStringPadChar="'0'", FixedStringPadFromLeft='true', LittleEndian='true'))):
+        add(nm, [Packet('Root', [F('meta', 'Z0', typ='ZName'), F('meta', 'Z1', typ='ZAlias'), F('meta', 'Z2', typ='ZAlias2'),
+                                 F('meta', 'S1', typ='SymAlias'), F('meta', 'M1', typ='MemoAlias'), F('meta', 'P3', typ='Px3'),
+                                 F('meta', 'Zs', typ='ZAlias', repeat=True), F('meta', 'Ss', typ='SymAlias', repeat=True)], root=True)],
+            o, meta=meta2, note='MetaData aliases keep the aliased entry\'s kind, size and padding')
 
     # ---- structured programs ----
     logon = Packet('Logon', [F('fixed', 'UserName', n=4, pad=('left', "'0'")), F('dyn', 'Password', spelling='string'),
@@ -538,10 +553,24 @@ def family(tier):
     add('cks_mid', [Packet('Root', [F('basic', 'A', typ='u32'), F('checksum', 'Check', typ='u32', alg='SUM8', spelling='inline'),
                                      F('basic', 'After', typ='u16')], root=True)], opts(LittleEndian='true'), fam='checksum',
         note='checksum field followed by another field')
+    add('cks_case', [Packet('Root', [F('basic', 'A', typ='u16'), F('checksum', 'Head', typ='u32', alg='crc32c', spelling='inline'),
+                                      F('dyn', 'S', spelling='string'), F('checksum', 'Check', typ='u32', alg='Adler32', spelling='prefixed')], root=True)],
+        opts(LittleEndian='true'), fam='checksum', note='algorithm names are case sensitive and used as written, in both spellings')
+    add('cks_two_same_width', [Packet('Root', [F('checksum', 'Head', typ='u32', alg='ADLER32', spelling='inline'), F('basic', 'A', typ='u16'),
+                                                F('dyn', 'S', spelling='string'), F('checksum', 'Check', typ='u32', alg='CRC32', spelling='prefixed')], root=True)],
+        opts(LittleEndian='true'), fam='checksum', note='two checksum fields of the same width and different algorithms in one packet')
+    add('cks_two_widths', [Packet('Root', [F('checksum', 'Head', typ='u16', alg='SUM16', spelling='inline'), F('basic', 'A', typ='u16'),
+                                            F('checksum', 'Check', typ='u32', alg='CRC32', spelling='inline')], root=True)],
+        opts(), fam='checksum')
     # identifier shapes
     add('idents', [Packet('Root', [F('basic', 'MsgType2', typ='u8'), F('dyn', 'clOrdID', spelling='string'), F('basic', 'user_name', typ='u16'),
                                    F('basic', 'ID', typ='u32'), F('obj', 'leg', typ='OrderLeg')], root=True),
                    Packet('OrderLeg', [F('basic', 'legQty', typ='i64')])], opts(LittleEndian='true'), note='identifier shapes')
+    add('idents_acronyms', [Packet('Root', [F('basic', 'MDMsgType', typ='u16'), F('match', 'Body', key='MDMsgType', pairs=[([1], 'Snapshot'), ([2], 'IOIQuote')])], root=True),
+                            Packet('Snapshot', [F('basic', 'MDEntryPx', typ='u32'), F('basic', 'NoMDEntries', typ='u64'), F('fixed', 'SecurityID', n=8),
+                                                F('basic', 'MDEntrySizes', typ='u32', repeat=True), F('dyn', 'IOIRef', spelling='string')]),
+                            Packet('IOIQuote', [F('basic', 'IOIQty', typ='u32'), F('basic', 'HTTPCode', typ='u16')])], opts(),
+        note='identifiers with acronyms followed by capitalised words (each generator converts case its own way)')
     add('idents_caps', [Packet('Root', [F('basic', 'K', typ='u8'), F('match', 'P', key='K', pairs=[([1], 'PA'), ([2], 'NewOrderV2')])], root=True),
                         Packet('PA', [F('basic', 'A', typ='u8')]), Packet('NewOrderV2', [F('basic', 'B', typ='u8')])], opts(),
         note='all-caps and digit-suffixed packet names')
@@ -570,4 +599,11 @@ def family(tier):
         for le in ORDERS[:2]:
             add('nest3_%s' % le, [Packet('Root', [F('obj', 'B', typ='L2'), F('obj', 'Bs', typ='L2', repeat=True)], root=True), l2, l3],
                 opts(LittleEndian=le, ArrayPrefixLenType='u8'))
+    # inline objects nested inside inline objects (every level needs its own emitted type)
+    add('inline_nested', [Packet('Root', [F('basic', 'Id', typ='u32'),
+                                          F('inline', 'Party', fields=[F('basic', 'Role', typ='u8'),
+                                                                       F('inline', 'Contact', fields=[F('dyn', 'Name', spelling='string'),
+                                                                                                      F('inline', 'Phone', repeat=True, fields=[F('basic', 'Cc', typ='u16'), F('dyn', 'Num', spelling='string')])])]),
+                                          F('basic', 'Tail', typ='u8')], root=True)], opts(LittleEndian='true'),
+        note='inline objects nested two and three levels deep')
     return progs
